@@ -28,7 +28,8 @@ What is proved, for unbounded sizes and nesting depths:
     whose number texts are well-formed — strings with arbitrary content, lists/objects nested arbitrarily — reads
     back as the same value, locations aside (`readValue_printValue`), the same for type references
     (`readType_printType`), and printing is stable after one round (`print_stable_on_values`);
-(c) the full statements over the shared lexer/parser models are at the end of the file (not yet connected). -/
+(c) the token-level round trip through the shared grammar S and parser model M of C03 (end of this file); the byte
+    level (lexer model, UTF-8, `parse_print` on bytes, `parse_ok_WF`) is in `Props/C08Bytes.lean`. -/
 namespace GqlModel.C08
 open GqlModel GqlModel.Printer GqlModel.Reader
 
@@ -296,23 +297,11 @@ example : Block.blockSafeB [97, 34] = false := by decide
 /-- `a⏎b` inside one block: `"""⏎  a⏎  b⏎  """` -/
 example : Block.blockText 2 [97, 10, 98] = [34, 34, 34, 10, 32, 32, 97, 10, 32, 32, 98, 10, 32, 32, 34, 34, 34] := by decide
 
-/-! ### what is still open: the lexer half
+/-! ### the lexer half
 
-```
-/-- every token of the printed text lexes to itself: with `Lexer.lexAll` (bytes → tokens, C03) -/
-theorem lex_render_tokens (d : Document) (hwf : WFDocument d) :
-    ∃ toks, Lexer.lexAll (print d).toUTF8.toList = ⟨toks, none⟩ ∧
-      (toks.dropLast.map (fun t => kvOf t.toToken)) = printTokens d
-/-- `parse_ok_WF`: everything lexer + parser accept (flag `typeRefMalformed` down) is well-formed -/
-theorem parse_ok_WF (src : Bytes) (toks) (p : Parser.Parsed) (hl : Lexer.lexAll src = ⟨toks, none⟩)
-    (hp : Parser.parseTokens (toks.map LTok.toToken) = .ok p) (hb : p.typeRefMalformed = false) : WFDocument p.doc
-```
-Pieces that exist: `printTokens_render` (the text is the token texts separated by Ignored characters),
-`quote_unquote` (string tokens, every byte string), `Reader.readNumber_int/_float`, `Reader.readName_name`
-(number and name tokens, on characters), `description_block_token` (block-string descriptions, on bytes, against
-`Lexer.readBlockString`).  Missing: names, numbers, punctuators and the Ignored runs against `Lexer.readTokenAt` /
-`lexLoop` on bytes with their offsets, and the UTF-8 bridge from M's characters to bytes.  Until then
-the lexer half is covered by correspondence on every run: harness/cmd/c08 compares `printTokens` with the real
-lexer's tokens of the real printer's output, and checks the whole round trip on the real code. -/
+`lex_render_tokens` (lexing the UTF-8 bytes of `print d` with C03's lexer model `Lexer.lexAll` yields `printTokens d` at
+the offsets of the rendering, then EOF), the composed byte-level `parse_print` / `print_stable_bytes`, and `parse_ok_WF`
+(everything lexer + parser accept with the malformed-type flag down is a `WFDocument`) are proved in
+`Props/C08Bytes.lean` (helper modules `GqlProofs/RoundTrip*.lean`). -/
 
 end GqlModel.C08
